@@ -616,9 +616,10 @@ Definition decided (r : walk_res) : Prop :=
 Lemma walk_files_spec_decided : forall hs pkgs i me m u, decided (walk_files spec_rule pkgs i me m u hs).
 Proof.
   induction hs as [|h hs IH]; intros pkgs i me m u; cbn; [exact I|].
-  destruct (h_kind h); try apply IH;
-    (destruct (own_get m (h_path h)) as [[[j gs] k]|]; [|apply IH];
-     unfold spec_rule; destruct (spec_clash_k (nth j pkgs no_pkg) me k _ gs (h_sum h)); try apply IH; exact I).
+  destruct (h_kind h);
+    try (destruct (own_get m (h_path h)) as [[[j gs] k]|]; [|apply IH];
+         unfold spec_rule; destruct (spec_clash_k (nth j pkgs no_pkg) me k _ gs (h_sum h)); try apply IH; exact I).
+  destruct (own_get m (h_link h)) as [[[j gs] k]|]; [|apply IH]. destruct k; apply IH.
 Qed.
 Lemma walk_pkgs_spec_decided : forall todo pkgs i m u, decided (walk_pkgs spec_rule pkgs i m u todo).
 Proof.
